@@ -474,6 +474,27 @@ pub fn run(ctx: &Ctx, rep: &mut Report) {
         }
         rep.add_space("from_index: long texts (k filler tokens then a new card, k = 0..=300 and around powers of two up to 65,537)", &acc, t0, "a set built from text must contain a card however late its token comes");
     }
+    {
+        let mut items = Vec::new();
+        for s in [0u64, 1, 1 << 51, (1 << 51) | 1, 1 << 52, (1 << 52) | 1, 0xF, 0xF000_0000_0000_000F, (1u64 << 52) - 1, u64::MAX] {
+            items.push(Case::new("peel_all", &[s]));
+        }
+        let a = Card::new(12, 3).word();
+        let b = Card::new(0, 0).word();
+        for n in 2..=7usize {
+            items.push(Case::w32("from_hand", &vec![a; n]));
+            let mut w = vec![b; n];
+            w[0] = a;
+            w[n - 1] = 0;
+            items.push(Case::w32("from_hand", &w));
+        }
+        for t in ["", "AS", "AS KS", "XX AS", "AS AS 2C", "2C"] {
+            items.push(Case::text("from_index", t, &[]));
+        }
+        items.push(Case::new("graph", &[1 << 51, (1 << 52) | 1, u64::MAX, u64::MAX]));
+        items.push(Case::new("graph", &[(1 << 50) | (1 << 63), u64::MAX, 1 << 12, u64::MAX]));
+        super::history2(rep, judge, &items);
+    }
     rep.rule = "graph states (sets over U) and edges; distinct 64-bit sets; distinct ordered hands / strings. Non-trivial = non-empty graph states, sets with overflow bits or empty, hands in which something must be dropped or merged".into();
     rep.bound = "fold/peel histories of ANY length over a 12-bit universe (closed graph); all sets with <= 4 members and their complements over 64 bits; from_n: all tuples (n <= 4), all multisets (n >= 5) over S53; the remaining 2^64 sets are outside".into();
     rep.assume("the state key is the complete observable content (the u64), so merged states have identical futures");
